@@ -98,7 +98,9 @@ def run(ctx):
     # beyond the listed properties, INFORMATIONAL only (never a violation: no listed property speaks about them):
     # type misuse of the API, hash consistency of equal elements, Ed25519 private-key clamping
     info = []
-    for g, other in (("i23", "i263"), ("ed37", "i23"), ("Ed25519", "I1024"), ("I1024", "I2048")):
+    uni.int_group("i67q3", 67, 3, 29)          # the same field as i67 (q = 11), another prime-order subgroup
+    uni.int_group("i23eq", 23, 11, 2)          # equal numbers, another object
+    for g, other in (("i23", "i263"), ("ed37", "i23"), ("Ed25519", "I1024"), ("I1024", "I2048"), ("i67", "i67q3"), ("i23", "i23eq")):
         uni.group(g)
         uni.group(other)
         for e in pure.misuse_events(uni, g, other):
